@@ -465,6 +465,41 @@ Definition red_strict (a b : gval) : gval :=
   | _, _ => GErr
   end.
 
+(* ---- after notes/C11.fix-3.diff: Node.__array_function__ chooses the reduction of np.sum by its axis
+   (`_sum_reduction`) and the per-buffer function is `_buffer_sum` ---- *)
+(* `_add_totals` (axis=None): two single numbers are added; per-row sums (the np.sum of ragged rows is one number per
+   row) follow each other; a number and an array cannot be concatenated (np.concatenate raises on a 0-d operand) *)
+Definition red_total (a b : gval) : gval :=
+  match a, b with
+  | GZ x, GZ y => GZ (x + y)
+  | GL x, GL y => GL (x ++ y)
+  | _, _ => GErr
+  end.
+(* `_concatenate_rows` (axis=-1): np.concatenate([a, b]) *)
+Definition red_rows (a b : gval) : gval := match a, b with GL x, GL y => GL (x ++ y) | _, _ => GErr end.
+(* `_buffer_sum(array, axis=0)`: the scalar 0 for a buffer without rows, else the column sums *)
+Definition op_colsums_fixed (a : list gval) : gval :=
+  match a with
+  | [GR []] => GZ 0
+  | [GR rows] => GL (map fst (spec_cols rows))
+  | _ => GErr
+  end.
+(* `_add_columns` on column sums: a scalar operand is added with `+` (only the 0 of an empty buffer occurs), equal
+   lengths add, otherwise the shorter is added into the prefix of the longer *)
+Fixpoint z_padadd (x y : list Z) : list Z :=
+  match x, y with
+  | p :: x', q :: y' => (p + q) :: z_padadd x' y'
+  | [], y => y
+  | x, [] => x
+  end.
+Definition red_cols (a b : gval) : gval :=
+  match a, b with
+  | GZ 0, y => y
+  | x, GZ 0 => x
+  | GL x, GL y => GL (z_padadd x y)
+  | _, _ => GErr
+  end.
+
 Definition red_tuple (fs : list (gval -> gval -> gval)) (a b : gval) : gval :=
   match a, b with
   | GT xs, GT ys => GT (map (fun '(f, (x, y)) => f x y) (combine fs (combine xs ys)))
@@ -487,7 +522,10 @@ Inductive pipeline :=
 | PValues            (* compute(pileup[windows]) : values under a second streamed interval set *)
 | PValuesMean0       (* compute(pileup[windows].mean(axis=0)) *)
 | PValuesSum         (* compute(np.sum(pileup[windows])) *)
-| PValuesSum0.       (* compute(pileup[windows].sum(axis=0)) *)
+| PValuesSum0        (* compute(pileup[windows].sum(axis=0)) *)
+| PValuesSum1        (* compute(pileup[windows].sum(axis=-1)) *)
+| PValuesSumPinned   (* history: np.sum(pileup[windows]) before fix-3 (reductions_map[np.sum] = operator.add) *)
+| PValuesSum0Pinned. (* history: pileup[windows].sum(axis=0) before fix-3 *)
 
 (* names stream node content is irrelevant for the dense observation; modelled as GZ index *)
 Definition names_node (n : nat) : node gval := NStream (map (fun i => GZ i) (arange (Z.of_nat n))).
@@ -515,6 +553,15 @@ Definition pipeline_graph (p : pipeline) (sizes : list Z) (a b : list (list iv))
          ++ [NComp op_extract [5%nat; 8%nat; 9%nat]; NComp op_rowsums [12%nat]], 13%nat)
   | PValuesSum0 =>
       (A ++ [NComp op_pileup [0%nat; 4%nat]; names_node (length sizes)] ++ intervals_nodes 7 b sizes
+         ++ [NComp op_extract [5%nat; 8%nat; 9%nat]; NComp op_colsums_fixed [12%nat]], 13%nat)
+  | PValuesSum1 =>
+      (A ++ [NComp op_pileup [0%nat; 4%nat]; names_node (length sizes)] ++ intervals_nodes 7 b sizes
+         ++ [NComp op_extract [5%nat; 8%nat; 9%nat]; NComp op_rowsums [12%nat]], 13%nat)
+  | PValuesSumPinned =>
+      (A ++ [NComp op_pileup [0%nat; 4%nat]; names_node (length sizes)] ++ intervals_nodes 7 b sizes
+         ++ [NComp op_extract [5%nat; 8%nat; 9%nat]; NComp op_rowsums [12%nat]], 13%nat)
+  | PValuesSum0Pinned =>
+      (A ++ [NComp op_pileup [0%nat; 4%nat]; names_node (length sizes)] ++ intervals_nodes 7 b sizes
          ++ [NComp op_extract [5%nat; 8%nat; 9%nat]; NComp op_colsums [12%nat]], 13%nat)
   end.
 
@@ -527,12 +574,15 @@ Definition finish (p : pipeline) (mean_red : gval -> gval -> gval) (vs : list gv
   match p with
   | PPileup | PMask => Some (GT vs)
   | PValues => Some (gconcat vs)
-  | PPileupSum => reduce1 red_add vs
+  | PPileupSum => reduce1 red_total vs
   | PPileupHist _ _ _ => reduce1 red_hist vs
-  | PHistAndSum _ _ _ => reduce1 (red_tuple [red_hist; red_add]) vs
+  | PHistAndSum _ _ _ => reduce1 (red_tuple [red_hist; red_total]) vs
   | PValuesMean0 => reduce1 mean_red vs
-  | PValuesSum => reduce1 red_bcast vs
-  | PValuesSum0 => reduce1 red_strict vs
+  | PValuesSum => reduce1 red_total vs
+  | PValuesSum0 => reduce1 red_cols vs
+  | PValuesSum1 => reduce1 red_rows vs
+  | PValuesSumPinned => reduce1 red_bcast vs
+  | PValuesSum0Pinned => reduce1 red_strict vs
   end.
 
 (* whole streamed pipeline: chunks of (chromosome id, interval) -> groupby/join -> genome walk -> graph -> result *)
@@ -561,8 +611,8 @@ Definition spec_pipeline (p : pipeline) (order sizes : list Z) (da db : list (Z 
   | PHistAndSum k lo hi => GT [GL (spec_hist k lo hi (concat tracks)); GZ (sumZ (concat tracks))]
   | PValues => GR vals
   | PValuesMean0 => if len (concat vals) =? 0 then GZ 0 else GSN (spec_cols vals)
-  | PValuesSum => GL (map sumZ vals)                      (* in memory: one sum per window *)
-  | PValuesSum0 => GL (map fst (spec_cols vals))          (* in memory: the column sums *)
+  | PValuesSum | PValuesSum1 | PValuesSumPinned => GL (map sumZ vals)    (* in memory: one sum per window *)
+  | PValuesSum0 | PValuesSum0Pinned => GL (map fst (spec_cols vals))      (* in memory: the column sums *)
   end.
 
 (* ====================================================================================== *)
@@ -700,7 +750,7 @@ Definition expr_graph (e : texpr) (q : query) (sizes : list Z) (a b : list (list
 Definition finish_query (q : query) (vs : list gval) : option gval :=
   match q with
   | QTrack => Some (GT vs)
-  | QSum => reduce1 red_add vs
+  | QSum => reduce1 red_total vs
   | QHist _ _ _ => reduce1 red_hist vs
   | QValues => Some (gconcat vs)
   end.
